@@ -7,6 +7,7 @@
   "Rejected queries are never evaluated" holds by construction: compilation raises, no query object exists.
 -/
 import JP.Lemmas.Typing
+import JP.Lemmas.SyntaxGate
 namespace JP.Props.C07
 open JP JP.Typing JP.Lemmas
 
@@ -84,6 +85,29 @@ theorem slice_range_gate (lo hi : Int) (a b c : Option Int) :
 
 /-- The default limits in the source are ±(2^53 − 1). -/
 theorem default_limits : Generated.envMaxIntIndex = 2^53 - 1 ∧ Generated.envMinIntIndex = -(2^53) + 1 := by decide
+
+/-! ## Syntactic refusals of a bracketed selection (parser model `Surface.parseSelList`, lexer model `JP.Lex`) -/
+
+/-- **Empty list**: the parser never succeeds on `[` immediately followed by `]`, whatever precedes and follows. -/
+theorem empty_list_rejected (pr : Surface.Prec) (fuel : Nat) (rest : List Surface.Tok) :
+    ∀ r, Surface.parsePath pr fuel (.lbracket :: .rbracket :: rest) ≠ .ok r :=
+  Lemmas.parsePath_empty_list pr fuel rest
+
+/-- **Comma-terminated list**: a selector followed by `, ]` is a syntax error. -/
+theorem trailing_comma_rejected (pr : Surface.Prec) (fuel : Nat) (toks rest : List Surface.Tok) (s : Sel)
+    (h : Surface.parseSelItem pr fuel toks = .ok (s, .comma :: .rbracket :: rest)) :
+    Surface.parseSelList pr (fuel + 1) toks = .error .syntax :=
+  Lemmas.parseSelList_trailing_comma pr fuel toks rest s h
+
+/-- **Translated**: the test `parse_selector_list` applies to the text of an index token. -/
+theorem leading_zero_source_ok :
+    Generated.indexLeadingZeroTest = "len(v) > 1 and v.startswith('0') or v.startswith('-0') | under: kind == TOKEN_INT" := by decide
+
+/-- **Leading zeros**: on the texts the lexer's integer rule produces (`-?[0-9]+`), that test refuses exactly
+    the texts that are not an RFC 9535 `int` (`"0" / (["-"] DIGIT1 *DIGIT)`): `01`, `00`, `-0`, `-01`, … -/
+theorem leading_zero_gate (v : Str) (h : Lemmas.intShape v = true) :
+    Lemmas.indexTextRefused v = !Lemmas.rfcInt v := Lemmas.leading_zero_gate v h
+
 
 /-! ### Non-vacuity -/
 example : gateSegs (tableOfGenerated Generated.functions)
